@@ -9,6 +9,7 @@ operator (a few lines of Python generator each) run on its own instrumented
 source gives the demand and the number of lambda applications the k results
 require; the implementation may use at most one more of each.
 """
+import re
 import itertools
 
 from sim import core, seams
@@ -303,6 +304,7 @@ class Build:
         self.src2 = src2
         self.t = 'dict' if case.get('dict_source') else 'int'
         self.lid = 0
+        self.needs_obj = False
 
     def nl(self):
         self.lid += 1
@@ -430,6 +432,27 @@ class Build:
             self.t = 'seq'
         elif k == 'memorize':
             self.text += '.memorize()'
+        elif k == 'viaDef':
+            # the pipeline so far is the ARGUMENT of a function defined in
+            # the expression; its body filters what it is given
+            lid = self.nl()
+            self.text = '(def(pf%d, $.where(%s)) -> pf%d(%s))' % (
+                lid, pred_text(op[1], lid, t), lid, self.text)
+            self.gen = m_where(self.gen, pred_fn(op[1], lid, t, tick))
+        elif k == 'hostPass':
+            # ... the argument of a method of a yaqlized host object that
+            # hands it back lazily
+            self.text = '$obj.passthru(%s)' % self.text
+            self.needs_obj = True
+        elif k == 'hostHead':
+            self.text = '$obj.head(%s, %d)' % (self.text, op[1])
+            self.gen = m_take(self.gen, op[1])
+            self.needs_obj = True
+        elif k == 'whereLazy':
+            # a predicate whose value is itself a lazy sequence: it is true
+            # as it stands, nothing of it is computed
+            lid = self.nl()
+            self.text += '.where([$, $].select(tick(%d, $)))' % lid
         elif k == 'join':
             if t != 'int':
                 raise ValueError('type')
@@ -527,10 +550,11 @@ def gen_op(w, t):
                'take', 'takeWhile', 'skipWhile', 'append', 'concat',
                'concatLeft', 'distinct', 'distinctBy', 'enumerate', 'zip',
                'zipLeft', 'accumulate', 'insert', 'delete', 'replace', 'slice',
-               'memorize', 'join']
+               'memorize', 'join', 'viaDef', 'hostPass', 'hostHead',
+               'whereLazy']
     seq_ops = ['where', 'select', 'selectMany', 'skip', 'take', 'takeWhile',
                'skipWhile', 'append', 'distinctBy', 'insert', 'delete',
-               'replace', 'memorize']
+               'replace', 'memorize', 'viaDef', 'hostPass', 'whereLazy']
     k = w.choice(int_ops if t == 'int' else seq_ops)
     if k in ('where', 'takeWhile', 'skipWhile'):
         return [k, gen_pred(w)]
@@ -563,8 +587,12 @@ def gen_op(w, t):
                 w.choice([1, 1, 2, 3, 10, 50, -1])]
     if k == 'slice':
         return [k, w.choice([1, 2, 3, 7])]
-    if k == 'memorize':
+    if k in ('memorize', 'hostPass', 'whereLazy'):
         return [k]
+    if k == 'viaDef':
+        return [k, gen_pred(w)]
+    if k == 'hostHead':
+        return [k, w.choice([0, 1, 2, 3, 5])]
     if k == 'join':
         return [k, [w.randrange(10) for _ in range(w.choice([1, 2, 3]))],
                 w.choice([2, 3])]
@@ -676,6 +704,13 @@ class StreamOwner:
     def stream(self):
         return _as_generator(self._src)
 
+    def passthru(self, seq):
+        return _as_generator(seq)
+
+    def head(self, seq, n):
+        import itertools
+        return _as_generator(itertools.islice(seq, n))
+
 
 def make_stream_owner(src):
     from yaql import yaqlization
@@ -779,7 +814,7 @@ def execute(case, stats):
     ctx = ctx0.create_child_context()
     ctx['src2'] = src2
     data_src = src
-    if case.get('source_via'):
+    if case.get('source_via') or '$obj.' in text:
         ctx['obj'] = make_stream_owner(src)
     if case.get('reiterable'):
         # an iterable that is not an iterator (only __iter__), as hosts pass
@@ -789,7 +824,7 @@ def execute(case, stats):
             bool(case.get('via_data')) and not case.get('source_via'))
     st = _state.setdefault('stmts', {}).get(skey)
     if st is None:
-        st = engine(text.replace('$src.', '$.').replace('($src)', '($)')
+        st = engine(re.sub(r'\$src(?![0-9A-Za-z_])', '$', text)
                     if case.get('via_data') and not case.get('source_via')
                     else text)
         _state['stmts'][skey] = st
